@@ -15,7 +15,7 @@ PROPERTY = "C15"
 LEVEL = "exploration"
 RUNS = {"quick": 28, "thorough": 600}
 RULE = (
-    "seeded scenes: faces from {periodic, PEC, PMC, none, PML}; uniform or non-uniform grid; random iso materials; random initial fields "
+    "seeded scenes: faces from {periodic, PEC, PMC, none, PML}; one run in four reduced by config.symmetry (electric or magnetic plane) on one axis; uniform or non-uniform grid; random iso materials; random initial fields "
     "plus 0-1 dipole; 3-5 field detectors per scene whose boxes are drawn from classes {interior, face contact, edge, corner, whole domain, "
     "single cell, slab}; exact (co-located) and raw recording; random component subsets and schedules. non-trivial = a non-zero record was "
     "compared; distinct = scene signature x set of box classes x exact flags"
@@ -24,11 +24,12 @@ REAL = ["place_objects", "forward", "update_detector_states (interior fast path 
 STUB = ["durable storage = host numpy copy"]
 ASSUMPTIONS = [
     "float64, tolerance 1e-12 relative to the trajectory max",
-    "non-uniform co-location = linear interpolation between cell centres with w_-1 := w_0 (as documented); symmetry-mirror halo not generated (needs config.symmetry scenes)",
+    "non-uniform co-location = linear interpolation between cell centres with w_-1 := w_0 (as documented)",
+    "electric symmetry plane: halo = mirror image by parity (tangential E / normal H odd and paired -1<->+1, normal E / tangential H even and paired -1<->0), re-derived in oracles.pad_halo; magnetic plane: zero halo",
 ]
 TECHNIQUE = "deterministic simulation: per-step record check against an independent co-location of the driver's trajectory"
 LEVEL_TEXT = "Seeded exploration; every active step of every detector is compared with the NumPy co-location oracle; box classes cover every kind of edge contact."
-LEVEL_NOTE = "float64 CPU; grids <= 9^3, T <= 8; zero and periodic halos (electric symmetry mirror not covered)"
+LEVEL_NOTE = "float64 CPU; grids <= 9^3, T <= 8; zero, periodic and symmetry-mirror halos (one run in four uses config.symmetry)"
 COMP = {"Ex": ("E", 0), "Ey": ("E", 1), "Ez": ("E", 2), "Hx": ("H", 0), "Hy": ("H", 1), "Hz": ("H", 2)}
 BOX_CLASSES = ("interior", "face", "edge", "corner", "whole", "cell", "slab")
 
@@ -73,12 +74,36 @@ def generate(rng, tier, index):
     T = int(rng.integers(2, 9))
     faces = specgen.rand_faces(rng, kinds_pair=("periodic",), kinds_single=("pec", "pmc", "none"), pml=(2, 3))
     shape = specgen.rand_shape(rng, 3, 8)
+    # one run in four is placed with config.symmetry on one axis (electric plane: mirror halo; magnetic plane: zero halo);
+    # `shape` is then the reduced (kept upper-half) shape and the spec carries the doubled one
+    sym_axis = int(rng.integers(0, 3)) if index % 4 == 3 else None
+    sym_wall = (-1 if rng.uniform() < 0.75 else 1) if sym_axis is not None else 0
+    if sym_axis is not None:
+        ax = "xyz"[sym_axis]
+        faces[f"min_{ax}"] = {"kind": "none"}
+        k = specgen.choice(rng, ["pec", "pmc", "none", "pml"])
+        faces[f"max_{ax}"] = {"kind": k, **({"thickness": 2} if k == "pml" else {})}
     for a, ax in enumerate("xyz"):
         t = sum(faces[f"{d}_{ax}"].get("thickness", 0) for d in ("min", "max"))
         shape[a] = max(shape[a], t + 2)
-    spec = {"shape": shape, "grid": specgen.rand_grid(rng, shape, 0.5), "steps": T, "faces": faces, "key": int(rng.integers(0, 2**31))}
+    grid = specgen.rand_grid(rng, shape, 0.5)
+    full_shape = list(shape)
+    if sym_axis is not None:
+        full_shape[sym_axis] = 2 * shape[sym_axis]
+        if grid["kind"] == "rect":  # mirror-symmetric widths about the plane
+            w = np.diff(np.asarray(grid["edges"][sym_axis]))
+            w = np.concatenate([w[::-1], w])
+            e = np.concatenate([[0.0], np.cumsum(w)])
+            grid["edges"][sym_axis] = [float(x) for x in (e - e[-1] / 2)]
+    spec = {"shape": full_shape, "grid": grid, "steps": T, "faces": faces, "key": int(rng.integers(0, 2**31))}
+    if sym_axis is not None:
+        spec["symmetry"] = [sym_wall if a == sym_axis else 0 for a in range(3)]
     spec["materials"] = {"mode": "random", "seed": int(rng.integers(0, 2**31)), "eps_tier": "iso"}
-    spec["sources"] = [specgen.rand_dipole(rng, "s0", shape, specgen.inner_region(shape, faces), T)] if rng.uniform() < 0.5 else []
+    dip_region = specgen.inner_region(shape, faces)
+    if sym_axis is not None and dip_region[sym_axis][1] - dip_region[sym_axis][0] > 1:
+        dip_region[sym_axis][0] += 1  # the library rejects a dipole sitting on the symmetry plane
+    dip = specgen.rand_dipole(rng, "s0", shape, dip_region, T)
+    spec["sources"] = [dip] if rng.uniform() < 0.5 else []
     dets = []
     classes = [specgen.choice(rng, list(BOX_CLASSES)) for _ in range(int(rng.integers(3, 6)))]
     for i, cls in enumerate(classes):
@@ -87,6 +112,10 @@ def generate(rng, tier, index):
         if sw:
             d["switch"] = sw
         dets.append(d)
+    if sym_axis is not None:  # boxes were drawn in reduced coordinates: shift them into the kept upper half of the full domain
+        n = shape[sym_axis]
+        for o in dets + spec["sources"]:
+            o["box"][sym_axis] = [o["box"][sym_axis][0] + n, o["box"][sym_axis][1] + n]
     spec["detectors"] = dets
     spec["init_seed"] = int(rng.integers(0, 2**31))
     spec["_min_detectors"] = 1
@@ -114,9 +143,25 @@ def execute(spec):
     from fdsim import scene as sc, driver as dr, oracles as orc
     from checks.c14 import rule_on_list, _unit_switch
 
-    scn = sc.build_scene(spec)
+    try:
+        scn = sc.build_scene(spec)
+    except ValueError as e:
+        if "symmetry plane" in str(e):  # documented rejection (a source on the plane)
+            return {"rejected": True, "nontrivial": False, "stats": {"rejected": 1}, "digest": "rejected:symmetry-plane"}
+        raise
     T = scn.T
     widths = orc.widths_from_spec(spec)
+    sym = list(spec.get("symmetry", (0, 0, 0)))
+    shift = [0, 0, 0]
+    for a in range(3):
+        if sym[a] != 0:  # the library keeps the upper half: widths and detector boxes move to reduced coordinates
+            shift[a] = spec["shape"][a] // 2
+            widths[a] = widths[a][shift[a]:]
+    if tuple(scn.arrays.fields.E.shape[1:]) != tuple(len(w) for w in widths):
+        from fdsim import env
+
+        raise env.HarnessError(f"reduced shape {scn.arrays.fields.E.shape} vs oracle widths {[len(w) for w in widths]}")
+    mirror = {a: sym[a] for a in range(3) if sym[a] != 0}
     wrap = tuple(spec["faces"].get(f"min_{ax}", {"kind": "none"})["kind"] in ("periodic", "bloch") for ax in "xyz")
     E0, H0 = sc.random_fields(scn, spec["init_seed"], scale=1.0)
     arrays = scn.arrays.aset("fields->E", E0).aset("fields->H", H0)
@@ -130,7 +175,7 @@ def execute(spec):
         state = st.fwd(state, 1)
         f = dr.fields_np(state)
         Hc = 0.5 * (Hprev + f["H"])
-        Ecol, Hcol = orc.colocate(orc.pad_halo(f["E"], wrap), orc.pad_halo(Hc, wrap), widths)
+        Ecol, Hcol = orc.colocate(orc.pad_halo(f["E"], wrap, mirror, "E"), orc.pad_halo(Hc, wrap, mirror, "H"), widths)
         recs.append((Ecol, Hcol, f["E"], f["H"]))
         scale = max(scale, float(np.max(np.abs(f["E"]))), float(np.max(np.abs(f["H"]))))
         Hprev = f["H"]
@@ -143,7 +188,7 @@ def execute(spec):
         if rec.shape[0] != len(active):
             viol.append({"monitor": "record_count", "detector": d["name"], "got": int(rec.shape[0]), "want": len(active)})
             continue
-        box = tuple(slice(a, b) for a, b in d["box"])
+        box = tuple(slice(a - sh_, b - sh_) for (a, b), sh_ in zip(d["box"], shift))
         for j, t in enumerate(active):
             Ecol, Hcol, Eraw, Hraw = recs[t]
             srcE, srcH = (Ecol, Hcol) if d["exact"] else (Eraw, Hraw)
@@ -157,9 +202,13 @@ def execute(spec):
                              "step": t, "component": d["components"][w[0]], "cell_in_box": w[1:], "metric": "rel_diff", "value": rd, "tolerance": 1e-12})
                 break
             checked += 1
-    grid_shape = spec["shape"]
+    grid_shape = [len(w) for w in widths]
     for d in spec["detectors"]:
-        interior = all(lo >= 1 and hi <= grid_shape[a] - 1 for a, (lo, hi) in enumerate(d["box"]))
+        interior = all(lo - shift[a] >= 1 and hi - shift[a] <= grid_shape[a] - 1 for a, (lo, hi) in enumerate(d["box"]))
+        if d["exact"] and any(sym[a] == -1 and d["box"][a][0] == shift[a] for a in range(3)):
+            stats["probe_electric_mirror_halo_read"] = stats.get("probe_electric_mirror_halo_read", 0) + 1
+        if d["exact"] and any(sym[a] == 1 and d["box"][a][0] == shift[a] for a in range(3)):
+            stats["probe_magnetic_plane_zero_halo_read"] = stats.get("probe_magnetic_plane_zero_halo_read", 0) + 1
         k = "probe_exact_interior_path" if (d["exact"] and interior) else "probe_exact_edge_path" if d["exact"] else "probe_raw"
         stats[k] = stats.get(k, 0) + 1
     stats["probe_nonuniform"] = int(spec["grid"]["kind"] == "rect")
